@@ -90,7 +90,8 @@ DEFAULT_CFG: dict[str, Any] = {
     "fh_src": {},
     "fh_dst": {},
     "metadata_only": False,
-    "msgs": None,
+    "msgs": None,  # messages to user of the put request (spec: cfdpmon/msgs.py)
+    "opts": None,  # other Metadata options of the put request: {"fs_requests": n, "overrides": n, "flow_label": hex}
     "src_name": "src.bin",
     "dst_name": "out.bin",
     # overrides applied to the RemoteEntityCfg each handler holds for its peer
@@ -412,9 +413,14 @@ class World:
             from .msgs import build_msgs
 
             msgs = build_msgs(c["msgs"])
+        kw = {}
+        if c["opts"]:
+            from .msgs import build_opts
+
+            kw = build_opts(c["opts"])
         if c["metadata_only"]:
-            return PutRequest(self.dst_id, None, None, mode, closure, msgs_to_user=msgs)
-        return PutRequest(self.dst_id, self.src_path, self.dst_req_path, mode, closure, msgs_to_user=msgs)
+            return PutRequest(self.dst_id, None, None, mode, closure, msgs_to_user=msgs, **kw)
+        return PutRequest(self.dst_id, self.src_path, self.dst_req_path, mode, closure, msgs_to_user=msgs, **kw)
 
     def put(self) -> bool:
         return self.S.put(self.put_request())
